@@ -4,4 +4,7 @@ CHECKS = {
  'C27': dict(engine='tv', level='exploration', technique='runtime monitor: round-trip/length oracle over enumerated + random inputs; Miri stage in thorough',
    text='Exhaustive over all values < 2^20 (quick) / 2^24 (thorough), every length-class boundary +-4096, 3M/200M random u64; decoder on every byte string of length <= 2 (and all 3-byte strings), 2M/50M random strings <= 9 bytes. Each case checks value, consumed length == varint_len, writes/reads inside the buffer, no panic.',
    note="Not a proof over 2^64 values: an error confined to values outside the enumerated ranges and never hit by the random sample would be missed. Miri (thorough) checks the same code for UB on a boundary subset."),
+ 'C30': dict(engine='tv', level='exploration', technique='runtime monitor: differential oracle (binary search over extracted keys) on generated leaf pages; both narrowing kernels asserted to bracket the answer; Miri stage executes the scalar dispatch',
+   text='Pages built through the real LeafNodeMut from sorted key sets of size 0..400 with adversarial 4-byte-prefix structure (8 styles + aligned sweep of equal-prefix runs 1..40 at offsets 0..15 from the 8-lane grid); every stored key, its neighbours, same-prefix extremes and random probes; find_key_simd and LeafNode::find_key must equal binary search, and simd_prefix_search_{avx2,scalar} must return a range containing the answer.',
+   note='Sampled pages/probes, not all key sets. Native runs take the AVX2 dispatch on this CPU; the scalar dispatch end-to-end is executed only in the Miri stage (thorough), the scalar kernel is additionally called directly in every run. NEON is not reachable on this machine.'),
 }
